@@ -1,0 +1,22 @@
+//go:build verif
+
+package provisioner
+
+// Hooks for the verification harness of property C01 (build tag verif, add-only).
+// The GCP and Azure provisioners read their key sets from URLs held in unexported
+// configuration structs that Init only fills when they are nil; these two setters let the
+// harness point them at a local key server before Init. Nothing else is changed.
+
+// VerifSetGCPCertsURL makes p fetch its JWK set from url instead of Google's.
+func VerifSetGCPCertsURL(p *GCP, url string) {
+	p.config = &gcpConfig{CertsURL: url, IdentityURL: gcpIdentityURL}
+}
+
+// VerifSetAzureDiscoveryURL makes p read its OpenID configuration (issuer, jwks_uri) from url.
+func VerifSetAzureDiscoveryURL(p *Azure, url string) {
+	p.config = &azureConfig{
+		oidcDiscoveryURL:   url,
+		identityTokenURL:   azureIdentityTokenURL,
+		instanceComputeURL: azureInstanceComputeURL,
+	}
+}
